@@ -71,6 +71,13 @@ BUILT: dict[str, dict[str, str]] = {
         note="Sequential runs on fresh studies; failures/prunes at leaves only (documented limitation of the sampler).",
         ref="DESIGN.md 3/C14",
     ),
+    "C09": dict(
+        technique="differential property testing (Hypothesis): generated deterministic objective programs x seeded samplers x pruners; the run on a fresh in-memory storage is compared trial by trial with re-runs, another process (different PYTHONHASHSEED), six other storage configurations, storages with trial-id offsets, split runs; copy_study field-for-field",
+        category="exploration",
+        text="Generated-configuration differential: any difference in (params seen by the objective, stored params, intermediate values, state, values) between the baseline and a variant is a violation. Two recorded findings (GA parent cache uses ids as indices; gRPC proxy loses parameter order for BruteForce/QMC) are carved out for exactly those (sampler, variant) pairs and counted.",
+        note="Study name fixed; n_jobs=1; CmaEs unavailable; GP only in the thorough tier.",
+        ref="DESIGN.md 3/C09",
+    ),
 }
 
 NOT_YET: dict[str, str] = {}
